@@ -174,6 +174,21 @@ func c11Run(c *mon.Case, content string, k int, ops string) bool {
 	return true
 }
 
+// c11BigContent builds "gen:<length>:<variant>": lines of 0..19 letters (so blank lines are frequent) ended by
+// LF, CR, CRLF, LFCR, LF LF or CR CR in rotation, cut at exactly <length> characters.
+func c11BigContent(spec string) string {
+	var n, variant int
+	fmt.Sscanf(spec, "gen:%d:%d", &n, &variant)
+	pats := []string{"\n", "\r", "\r\n", "\n\r", "\n\n", "\r\r"}
+	var b strings.Builder
+	b.Grow(n + 32)
+	for line := 0; b.Len() < n; line++ {
+		b.WriteString("abcdefghijklmnopqrstuvwxyz"[:(line*7+variant*3)%20])
+		b.WriteString(pats[(line+variant)%len(pats)])
+	}
+	return b.String()[:n]
+}
+
 func c11Payload(content string, k int, ops string) string {
 	return content + "\x00" + strconv.Itoa(k) + "\x00" + ops
 }
@@ -198,6 +213,14 @@ func c11Exec(depth int) func(c *mon.Case) {
 	return func(c *mon.Case) {
 		parts := strings.Split(c.Payload, "\x00")
 		content := parts[0]
+		if strings.HasPrefix(content, "hex:") { // contents that are not valid UTF-8 travel hex-encoded
+			var b []byte
+			fmt.Sscanf(content[4:], "%x", &b)
+			content = string(b)
+		}
+		if strings.HasPrefix(content, "gen:") { // big contents are generated from their parameters
+			content = c11BigContent(content)
+		}
 		k, _ := strconv.Atoi(parts[1])
 		if len(parts) > 2 && parts[2] != "*" {
 			if c11Run(c, content, k, parts[2]) {
@@ -289,8 +312,12 @@ func installScannerMonitor() {
 			c11hook.resets.add(1)
 		}
 		if line != e.lines[k] || column != e.cols[k] {
-			panic(scannerInvariant{fmt.Sprintf("after op %d the scanner at position %d of %q reports line=%d column=%d, a forward scan gives line=%d column=%d",
-				op, position, string(content), line, column, e.lines[k], e.cols[k])})
+			shown := content
+			if len(shown) > 200 {
+				shown = shown[:200]
+			}
+			panic(scannerInvariant{fmt.Sprintf("the scanner's line/column differ from a forward scan to its position (hook H2)\nafter op %d at position %d it reports line=%d column=%d, a forward scan gives line=%d column=%d; content (first 200 characters) %q",
+				op, position, line, column, e.lines[k], e.cols[k], string(shown))})
 		}
 	}
 }
@@ -472,5 +499,80 @@ func buildC11(cfg *mon.Config) []*mon.Sub {
 		},
 		Exec: c11Exec(0),
 	}
-	return []*mon.Sub{exh, rnd, hooked, sweeps}
+	invalid := &mon.Sub{
+		Name: "contents-that-are-not-valid-utf8", Rule: "every content of length <= 5 over {a, LF, CR, 0xFF, 0xC3, 0xA9 (so also the valid pair C3 A9 = é), 0xE2 0x82 (a truncated sequence), U+FFFD}: read to the end, un-read to the start, read again, with the model (every byte that is not part of a valid sequence is one U+FFFD character) compared after every operation",
+		Exhaustive: true, DistinctByGen: true, Floor: 500,
+		Gen: func(emit func(string)) {
+			enumStrings([]string{"a", "\n", "\r", "\xff", "\xc3", "\xa9", "\xe2\x82", "\ufffd"}, 5, func(parts []string) {
+				content := joinParts(parts)
+				n := len([]rune(content))
+				emit(c11Payload(fmt.Sprintf("hex:%x", content), 0, strings.Repeat("r", n+1)+strings.Repeat("u", n+2)+strings.Repeat("r", n)+"MmR"))
+			})
+		},
+		Exec: c11Exec(0),
+	}
+	huge := &mon.Sub{
+		Name: "contents-beyond-65535-characters", Rule: "generated contents of 65 535, 65 536, 65 537, 70 000 and 131 073 characters made of lines of 0..19 letters (blank lines are frequent) ended by LF, CR, CRLF, LFCR, LF LF and CR CR in rotation: read to the end, un-read 1500 characters one by one, re-read, jump back in blocks of 33..40 and of 2 and 3, reset, read 3000 and un-read 700; the model compared after every operation; a case is one content",
+		Exhaustive: true, DistinctByGen: true, Floor: 5,
+		Gen: func(emit func(string)) {
+			sizes := []int{65535, 65536, 65537, 70000}
+			if !cfg.Quick() {
+				sizes = append(sizes, 131073, 262145)
+			}
+			for _, n := range sizes {
+				for variant := 0; variant < cfg.N(2, 6); variant++ {
+					ops := strings.Repeat("r", n+1) + strings.Repeat("u", 1500) + strings.Repeat("r", 1501)
+					for k := 0; k < 8; k++ {
+						ops += strings.Repeat(string(rune('A'+(k+variant)%8)), 12) + strings.Repeat("r", 37)
+					}
+					ops += strings.Repeat("M", 200) + strings.Repeat("r", 90) + strings.Repeat("m", 200) + "R" + strings.Repeat("r", 3000) + strings.Repeat("u", 700)
+					emit(c11Payload(fmt.Sprintf("gen:%d:%d", n, variant), 0, ops))
+				}
+			}
+		},
+		Exec: c11Exec(0),
+	}
+	volume := &mon.Sub{
+		Name: "many-scanners-over-distinct-contents", Rule: fmt.Sprintf("%d scanners, one after the other and on all shards at once, each over its own random 15-character content (10 letters, LF, 4 letters; all of the same length): every read must return that content's characters and the final position must be line 2, column 4 - whatever earlier or concurrent scanners in the process were created over (a volume at which anything shared between scanners and keyed by less than the whole text shows)", 16*cfg.N(2000000, 20000000)),
+		Exhaustive: true, DistinctByGen: true, Floor: 16,
+		Gen: func(emit func(string)) {
+			rio.VerifScannerHook = nil // hook H2 keeps a table per content: switched off for this volume run (sub-checks run one after the other)
+			for i := 0; i < 16; i++ {
+				emit(fmt.Sprintf("vol:%d:%d", i, cfg.N(2000000, 20000000)))
+			}
+		},
+		Final: func(*mon.SubReport) string { installScannerMonitor(); return "" },
+		Exec: func(c *mon.Case) {
+			var shard, count int
+			fmt.Sscanf(c.Payload, "vol:%d:%d", &shard, &count)
+			r := mon.NewRng(uint64(shard)+77, "c11-volume")
+			buf := make([]byte, 15)
+			for i := 0; i < count; i++ {
+				x, y := r.Next(), r.Next()
+				for k := 0; k < 10; k++ {
+					buf[k] = byte('a' + x%26)
+					x /= 26
+				}
+				buf[10] = '\n'
+				for k := 11; k < 15; k++ {
+					buf[k] = byte('a' + y%26)
+					y /= 26
+				}
+				content := string(buf)
+				s := rio.NewStringScanner(content)
+				for k := 0; k < 15; k++ {
+					if ch := s.Read(); ch != rune(buf[k]) {
+						c.Failf("read returned the wrong character", "scanner #%d of this shard over %q: read #%d returned %q", i, content, k, ch)
+						return
+					}
+				}
+				if s.Line() != 2 || s.Column() != 4 || s.Read() != -1 {
+					c.Failf("line/column differ from a forward scan to the cursor position (after read)", "scanner #%d of this shard over %q reports line=%d column=%d at the end", i, content, s.Line(), s.Column())
+					return
+				}
+			}
+			c.AddEvals(count-1, count)
+		},
+	}
+	return []*mon.Sub{exh, rnd, hooked, sweeps, invalid, huge, volume}
 }
